@@ -162,10 +162,12 @@ def gen_pag():
             body = []
             flow = []
             fexp = []
+            paras = []
             wi = 1
             for pi in range(np_):
                 k = rr.randint(*wr)
                 ws = words("w", k, wi)
+                paras.append(ws)
                 wi += k
                 attrs = ""
                 if pi in forced:
@@ -179,7 +181,7 @@ def gen_pag():
             plain = (orph == 1 and wid == 1 and not forced)
             exp = dict(flows={"main": flow}, margin=True, probes=len(probes), page_w=W, page_h=H,
                        forced=fexp, conserve=True, geometry=True, fits_page=True, plain=plain,
-                       line_height=12, margin_top=M, margin_bottom=M)
+                       line_height=12, margin_top=M, margin_bottom=M, paras=paras, orphans=orph, widows=wid)
             scenario(name, "pag", doc(css, "\n".join(body)), expect=exp, engines=["pango", "gotext"] if n in (1, 4) and not probes else ["pango"])
 
     # named pages / first / left / right / blank selectors
@@ -207,15 +209,16 @@ def gen_pag():
     # break-inside: avoid and break-after: avoid
     n += 1
     css = page_css(200, 150, 10) + BASE + ".keep { break-inside: avoid }\nh2 { break-after: avoid }\n" + PROBE_CSS
-    body, flow = [], []
+    body, flow, keep, kwn = [], [], [], []
     wi = 1
     for pi in range(10):
         hw = words("h", 2, pi * 2 + 1)
         body.append("<h2>%s</h2>" % " ".join(hw)); flow += hw
         ws = words("w", 6 + (pi * 5) % 11, wi); wi += len(ws)
         body.append(para(ws, 'class=keep', 2 if pi == 4 else None)); flow += ws
+        keep.append(ws); kwn.append([hw[0], ws[0]])
     exp = dict(flows={"main": flow}, margin=True, probes=1, page_w=200, page_h=150, conserve=True, geometry=True,
-               fits_page=True, line_height=12, margin_top=10, margin_bottom=10)
+               fits_page=True, line_height=12, margin_top=10, margin_bottom=10, keep_together=keep, keep_with_next=kwn)
     scenario("pag-%02d" % n, "pag", doc(css, "\n".join(body)), expect=exp)
 
 
